@@ -15,6 +15,7 @@
 #include <locale>
 #include <stdexcept>
 #include <stdio.h> // snprintf
+#include <vector>
 #include <string>
 #include <type_traits>
 
@@ -517,7 +518,16 @@ public:
                     {
                         JSONCONS_THROW(json_runtime_error<std::invalid_argument>("write_double failed."));
                     }
-                    dump_buffer(number_buffer, length, decimal_point_, result);
+                    if (static_cast<std::size_t>(length) < sizeof(number_buffer))
+                    {
+                        dump_buffer(number_buffer, length, decimal_point_, result);
+                    }
+                    else // the text did not fit (large magnitude or precision): format it again into a buffer of the size snprintf asked for
+                    {
+                        std::vector<char> large_buffer(static_cast<std::size_t>(length) + 1);
+                        snprintf(large_buffer.data(), large_buffer.size(), "%1.*f", precision_, val);
+                        dump_buffer(large_buffer.data(), length, decimal_point_, result);
+                    }
                 }
                 else
                 {
@@ -537,7 +547,16 @@ public:
                     {
                         JSONCONS_THROW(json_runtime_error<std::invalid_argument>("write_double failed."));
                     }
-                    dump_buffer(number_buffer, length, decimal_point_, result);
+                    if (static_cast<std::size_t>(length) < sizeof(number_buffer))
+                    {
+                        dump_buffer(number_buffer, length, decimal_point_, result);
+                    }
+                    else // the text did not fit (large magnitude or precision): format it again into a buffer of the size snprintf asked for
+                    {
+                        std::vector<char> large_buffer(static_cast<std::size_t>(length) + 1);
+                        snprintf(large_buffer.data(), large_buffer.size(), "%1.*e", precision_, val);
+                        dump_buffer(large_buffer.data(), length, decimal_point_, result);
+                    }
                 }
                 else
                 {
@@ -557,7 +576,16 @@ public:
                     {
                         JSONCONS_THROW(json_runtime_error<std::invalid_argument>("write_double failed."));
                     }
-                    dump_buffer(number_buffer, length, decimal_point_, result);
+                    if (static_cast<std::size_t>(length) < sizeof(number_buffer))
+                    {
+                        dump_buffer(number_buffer, length, decimal_point_, result);
+                    }
+                    else // the text did not fit (large magnitude or precision): format it again into a buffer of the size snprintf asked for
+                    {
+                        std::vector<char> large_buffer(static_cast<std::size_t>(length) + 1);
+                        snprintf(large_buffer.data(), large_buffer.size(), "%1.*g", precision_, val);
+                        dump_buffer(large_buffer.data(), length, decimal_point_, result);
+                    }
                 }
                 else
                 {
